@@ -328,6 +328,42 @@ def r6_skip_dominance(ctx, res):
             res.find(k2 + ':query', pc.module.relpath, f'_precheck looks lexicons up with {v.stmt.verb} WHERE {preds}; expected id and version equality')
 
 
+def r7_ownership(ctx, res):
+    """every row the importer writes into a table with a lexicon_rowid column is owned by the lexicon being added."""
+    from .c01 import computed_bindings
+    table, sites = computed_bindings(ctx, with_sites=True)
+    n = 0
+    for (t, c), alts in sorted(table.items()):
+        if c != 'lexicon_rowid':
+            continue
+        for a in sorted(alts):
+            n += 1
+            key = f'owner:{t}<-{a[-1]}'
+            b = sites[(t, c, a)][0]
+            res.inst(key, b.site.loc, f'{t}.lexicon_rowid <- {a[-1]}')
+            if a[-1] != 'lexid':
+                res.find(key, b.site.loc,
+                         f'{b.func.qualname} writes {t}.lexicon_rowid from `{a[-1]}` instead of the rowid of the lexicon being added: rows '
+                         f'contributed by this lexicon are owned by another one, so removing it leaves them behind (and removing the '
+                         f'other lexicon deletes them)')
+    if n < 12:
+        raise AnalysisError(f'only {n} owner bindings found')
+    for t, cols in ctx.schema.tables.items():
+        if any(col.name == 'lexicon_rowid' for col in cols):
+            key = f'owner-written:{t}'
+            res.inst(key, 'wn/schema.sql', 'owner column written by the importer')
+            if (t, 'lexicon_rowid') not in table:
+                res.find(key, 'wn/_add.py', f'no INSERT of the importer writes {t}.lexicon_rowid')
+
+
+def r8_no_stale_state(ctx, res):
+    """nothing outside the database remembers content across add()/remove(): no memoised query, no module-level cache."""
+    from .c16 import hidden_state_subset
+    n = hidden_state_subset(ctx, res, ('_queries', '_core', '_db', '_add', '_export'), 'no-stale-state')
+    if n < 200:
+        raise AnalysisError(f'only {n} functions examined for hidden state')
+
+
 RULES = [
     ('C05-R1', r1_cascade_closure, 40),
     ('C05-R2', r2_fk_enforcement, 3),
@@ -335,4 +371,6 @@ RULES = [
     ('C05-R4', r4_remove_shape, 3),
     ('C05-R5', r5_relink, 4),
     ('C05-R6', r6_skip_dominance, 2),
+    ('C05-R7', r7_ownership, 12),
+    ('C05-R8', r8_no_stale_state, 200),
 ]
